@@ -1,3 +1,398 @@
 package main
 
-func runLineMap() {}
+import (
+	"debug/dwarf"
+	"debug/elf"
+	"fmt"
+	"os"
+	"path/filepath"
+	"sort"
+	"strings"
+	"time"
+
+	"github.com/goplus/xgo/parser"
+
+	"verifharness/hlib"
+	"verifharness/xgolib"
+)
+
+// C09 -- line directives.  A case of specs/sem2/LineMap.tla is one source file:
+//
+//	text   line descriptors (k, id, ref); descriptor j renders to source line j
+//	ents   per probe id: kind, line (= what the property demands: first line of the statement),
+//	       code (= line predicted by the model of today's code), dev (named deviation), ctx
+//	funcs  per function item: kind, decl (line of `func`), ndoc
+type lmLine struct {
+	K   string `json:"k"`
+	ID  int    `json:"id"`
+	Ref int    `json:"ref"`
+}
+type lmEnt struct {
+	Kind string `json:"kind"`
+	Line int    `json:"line"`
+	Code int    `json:"code"`
+	Dev  string `json:"dev"`
+	Ctx  string `json:"ctx"`
+}
+type lmFunc struct {
+	Kind string `json:"kind"`
+	Decl int    `json:"decl"`
+	NDoc int    `json:"ndoc"`
+}
+type lmCase struct {
+	FKind string   `json:"fkind"` // "xgo" (default) | "gox": the file is a normal class file Case<idx>.gox
+	Text  []lmLine `json:"text"`
+	Ents  []lmEnt  `json:"ents"`
+	Funcs []lmFunc `json:"funcs"`
+}
+
+const lmIDBase = 1000 // global probe id = idx*lmIDBase + id
+
+const lmProbe = `import "runtime"
+
+func where(id int, more ...int) int {
+	_, file, line, _ := runtime.Caller(1)
+	echo "@", id, file, line
+	return 1
+}
+
+func sink(x ...int) {
+}
+
+func apply(f func(int) int) int {
+	return f(0)
+}
+`
+
+func (c *lmCase) fileName(idx int) string {
+	if c.FKind == "gox" {
+		return fmt.Sprintf("Case%d.gox", idx)
+	}
+	return fmt.Sprintf("case%d.xgo", idx)
+}
+
+func (c *lmCase) render(idx int) string {
+	var sb strings.Builder
+	gid := func(id int) int { return idx*lmIDBase + id }
+	for _, l := range c.Text {
+		var t string
+		switch l.K {
+		case "typedecl":
+			t = fmt.Sprintf("type T%d struct{}", idx)
+			if c.FKind == "gox" {
+				t = "var n int" // the class's var block
+			}
+		case "blank":
+			t = ""
+		case "comment":
+			t = "// c"
+		case "funchdr":
+			t = fmt.Sprintf("func f%d_%d() {", idx, l.Ref)
+		case "methhdr":
+			t = fmt.Sprintf("func (t *T%d) m%d() {", idx, l.Ref)
+		case "casehdr":
+			t = fmt.Sprintf("func case%d() {", idx)
+		case "close":
+			t = "}"
+		case "call":
+			t = fmt.Sprintf("\twhere(%d)", gid(l.ID))
+		case "cmd":
+			t = fmt.Sprintf("\twhere %d", gid(l.ID))
+		case "assign":
+			t = fmt.Sprintf("\tv%d := where(%d)", l.ID, gid(l.ID))
+		case "use":
+			t = fmt.Sprintf("\tsink(v%d)", l.Ref)
+		case "mcall1":
+			t = fmt.Sprintf("\twhere(%d,", gid(l.ID))
+		case "arg0":
+			t = "\t\t0,"
+		case "rparen":
+			t = "\t)"
+		case "sinkopen":
+			t = "\tsink("
+		case "argwhere":
+			t = fmt.Sprintf("\t\twhere(%d),", gid(l.ID))
+		case "ifhdr":
+			t = fmt.Sprintf("\tif where(%d) > 0 {", gid(l.ID))
+		case "forhdr":
+			t = fmt.Sprintf("\tfor i := 0; i < where(%d); i++ {", gid(l.ID))
+		case "swhdr":
+			t = fmt.Sprintf("\tswitch where(%d) {", gid(l.ID))
+		case "case1":
+			t = "\tcase 1:"
+		case "defer":
+			t = fmt.Sprintf("\tdefer sink(where(%d))", gid(l.ID))
+		case "var":
+			t = fmt.Sprintf("\tvar v%d = where(%d)", l.ID, gid(l.ID))
+		case "lamexpr":
+			t = fmt.Sprintf("\tsink(apply(x => where(%d) + x))", gid(l.ID))
+		case "lamhdr":
+			t = "\tsink(apply(x => {"
+		case "ret":
+			t = fmt.Sprintf("\t\treturn where(%d) + x", gid(l.ID))
+		case "lamend":
+			t = "\t}))"
+		case "flithdr":
+			t = fmt.Sprintf("\tg%d := func() {", l.Ref)
+		case "callg":
+			t = fmt.Sprintf("\tg%d()", l.Ref)
+		case "fwd":
+			t = fmt.Sprintf("\tsink(later%d_%d(where(%d)))", idx, l.Ref, gid(l.ID))
+		case "callfn":
+			t = fmt.Sprintf("\tf%d_%d()", idx, l.Ref)
+		case "callmeth":
+			t = fmt.Sprintf("\t(&T%d{}).m%d()", idx, l.Ref)
+		case "laterhdr":
+			t = fmt.Sprintf("func later%d_%d(x int) int {", idx, l.Ref)
+		case "retx":
+			t = "\treturn x"
+		default:
+			fmt.Fprintf(errOut, "unknown line descriptor %q\n", l.K)
+			exitCode = 3
+		}
+		sb.WriteString(t)
+		sb.WriteString("\n")
+	}
+	return sb.String()
+}
+
+var lmSpec = batchSpec{
+	Compose: func(b []*unit) map[string]string {
+		files := map[string]string{"aprobe.xgo": lmProbe}
+		var sb strings.Builder
+		for _, u := range b {
+			for k, v := range u.Extra {
+				files[k] = v
+			}
+			if u.Decls == "gox" {
+				fmt.Fprintf(&sb, "(&Case%d{}).case%d()\n", u.Idx, u.Idx)
+			} else {
+				fmt.Fprintf(&sb, "case%d()\n", u.Idx)
+			}
+		}
+		files["main.xgo"] = sb.String()
+		return files
+	},
+	Parse: func(stdout string) map[int][]string {
+		m := map[int][]string{}
+		for _, l := range strings.Split(stdout, "\n") {
+			var id, line int
+			var file string
+			if n, _ := fmt.Sscanf(l, "@ %d %s %d", &id, &file, &line); n == 3 {
+				idx := id / lmIDBase
+				m[idx] = append(m[idx], fmt.Sprintf("%d %s %d", id%lmIDBase, filepath.Base(file), line))
+			}
+		}
+		return m
+	},
+	Post: func(bin string, b []*unit, res map[int]*batchOutcome) {
+		lines, err := dwarfFuncLines(bin)
+		if err != nil {
+			fmt.Fprintln(errOut, "dwarf:", err)
+			exitCode = 3
+			return
+		}
+		for _, o := range res {
+			o.FuncLine = lines // shared map, read-only
+		}
+	},
+	FailOnExit: true,
+}
+
+// dwarfFuncLines returns DW_AT_decl_line of every subprogram of package main, by name.
+func dwarfFuncLines(bin string) (map[string]int, error) {
+	f, err := elf.Open(bin)
+	if err != nil {
+		return nil, err
+	}
+	defer f.Close()
+	d, err := f.DWARF()
+	if err != nil {
+		return nil, err
+	}
+	out := map[string]int{}
+	r := d.Reader()
+	for {
+		e, err := r.Next()
+		if err != nil {
+			return nil, err
+		}
+		if e == nil {
+			break
+		}
+		if e.Tag != dwarf.TagSubprogram {
+			continue
+		}
+		name, _ := e.Val(dwarf.AttrName).(string)
+		line, ok := e.Val(dwarf.AttrDeclLine).(int64)
+		if ok && strings.HasPrefix(name, "main.") {
+			if _, dup := out[name]; !dup {
+				out[name] = int(line)
+			}
+		}
+	}
+	return out, nil
+}
+
+func runLineMap() {
+	mode := "comments"
+	if len(os.Args) > 2 {
+		mode = os.Args[2]
+	}
+	cases := hlib.ReadAllCases[lmCase]()
+	units := make([]*unit, len(cases))
+	for i := range cases {
+		units[i] = &unit{Idx: i, Extra: map[string]string{cases[i].fileName(i): cases[i].render(i)}}
+		if cases[i].FKind == "gox" {
+			units[i].Decls = "gox"
+		}
+	}
+	opt := xgolib.Options{} // file-line output ON
+	if mode == "comments" {
+		opt.ParseMode = parser.ParseComments // what tool/load.go uses
+	}
+	t0 := time.Now()
+	soloCompileSpec(units, opt, lmSpec)
+	fmt.Fprintf(errOut, "linemap: %d units compiled alone in %.1fs\n", len(units), time.Since(t0).Seconds())
+	var ok []*unit
+	for _, u := range units {
+		if u.SoloErr == "" {
+			ok = append(ok, u)
+		}
+	}
+	t0 = time.Now()
+	outs := runBatchesSpec(ok, 100, opt, 8, lmSpec)
+	fmt.Fprintf(errOut, "linemap: batches run in %.1fs\n", time.Since(t0).Seconds())
+	for i := range cases {
+		c := &cases[i]
+		u := units[i]
+		src := u.Extra[c.fileName(i)]
+		var kinds []string
+		for _, e := range c.Ents {
+			kinds = append(kinds, e.Kind+"@"+e.Ctx)
+		}
+		gaps := ""
+		for _, l := range c.Text {
+			switch l.K {
+			case "blank":
+				gaps += "b"
+			case "comment":
+				gaps += "c"
+			default:
+				if !strings.HasSuffix(gaps, "|") {
+					gaps += "|"
+				}
+			}
+		}
+		res := hlib.Result{Idx: i, V: "ok", Input: map[string]any{"file": src, "mode": mode, "name": c.fileName(i)},
+			NT: c.FKind + ":" + strings.Join(kinds, ",") + "/" + gaps}
+		file := c.fileName(i)
+		o := outs[i]
+		switch {
+		case u.SoloErr != "":
+			res.V, res.Sig = "viol", "compile-fail:"+strings.Join(kinds, ",")
+			res.Detail = "layout does not compile: " + u.SoloErr + "\n" + src
+		case o == nil || o.XgoErr != "":
+			fmt.Fprintf(errOut, "case %d compiled alone but not in a batch: %+v\n", i, o)
+			exitCode = 3
+			continue
+		case o.BuildErr != "":
+			res.V, res.Sig = "viol", "gobuild-fail:"+strings.Join(kinds, ",")
+			res.Detail = fmt.Sprintf("generated Go does not build/run: %.600s\n%s", o.BuildErr, src)
+		default:
+			obs := map[int]map[string]bool{}
+			for _, l := range o.Lines {
+				var id, line int
+				var f string
+				fmt.Sscanf(l, "%d %s %d", &id, &f, &line)
+				if obs[id] == nil {
+					obs[id] = map[string]bool{}
+				}
+				obs[id][fmt.Sprintf("%s:%d", f, line)] = true
+			}
+			// rank: unmodelled > named deviation ; drift when the code no longer deviates
+			rank := 0
+			set := func(r int, v, sig, detail string) {
+				if r > rank {
+					rank, res.V, res.Sig, res.Detail = r, v, sig, detail
+				}
+			}
+			var seen []string
+			for id1, e := range c.Ents {
+				id := id1 + 1
+				want := fmt.Sprintf("%s:%d", file, e.Line)
+				code := fmt.Sprintf("%s:%d", file, e.Code)
+				got := sortedKeys(obs[id])
+				seen = append(seen, fmt.Sprintf("%d@%s", id, strings.Join(got, "|")))
+				if len(got) == 0 {
+					set(10, "viol", "probe-not-reached:"+e.Kind, fmt.Sprintf("probe %d (%s) printed nothing\n%s", id, e.Kind, src))
+					continue
+				}
+				allWant, allCode := true, true
+				for _, g := range got {
+					allWant = allWant && g == want
+					allCode = allCode && g == code
+				}
+				switch {
+				case allWant && e.Dev != "none":
+					set(1, "drift", "no-longer-deviates:"+e.Dev, fmt.Sprintf("probe %d (%s): code reports %v = the property's line; the model of the code expected %s", id, e.Kind, got, code))
+				case allWant:
+				case allCode && e.Dev != "none":
+					set(6, "viol", "stmt-line:"+e.Dev,
+						fmt.Sprintf("probe %d (%s in %s): runtime.Caller reports %v, the statement is written at %s (named deviation %s)\n%s", id, e.Kind, e.Ctx, got, want, e.Dev, numbered(src)))
+				default:
+					rel := "other"
+					if len(got) == 1 {
+						var f string
+						var ln int
+						fmt.Sscanf(strings.Replace(got[0], ":", " ", 1), "%s %d", &f, &ln)
+						switch {
+						case f != file:
+							rel = "wrong-file"
+						case ln < e.Line:
+							rel = "earlier"
+						case ln > e.Line:
+							rel = "later"
+						}
+					}
+					set(8, "viol", fmt.Sprintf("stmt-line:%s:%s:%s", e.Kind, e.Ctx, rel),
+						fmt.Sprintf("probe %d (%s in %s): runtime.Caller reports %v, the statement is written at %s\n%s", id, e.Kind, e.Ctx, got, want, numbered(src)))
+				}
+			}
+			for n1, f := range c.Funcs {
+				name := fmt.Sprintf("main.f%d_%d", i, n1+1)
+				if f.Kind == "method" {
+					name = fmt.Sprintf("main.(*T%d).m%d", i, n1+1)
+				} else if c.FKind == "gox" {
+					name = fmt.Sprintf("main.(*Case%d).f%d_%d", i, i, n1+1)
+				}
+				got, found := o.FuncLine[name]
+				doc := "nodoc"
+				if f.NDoc > 0 {
+					doc = "doc"
+				}
+				seen = append(seen, fmt.Sprintf("%s@%d", name, got))
+				if !found {
+					set(2, "drift", "func-not-in-dwarf", name+" has no DWARF subprogram entry")
+				} else if got != f.Decl {
+					set(9, "viol", fmt.Sprintf("func-line:%s:%s", f.Kind, doc),
+						fmt.Sprintf("%s: declaration line in the debug info is %d, the function is written at %s:%d\n%s", name, got, file, f.Decl, numbered(src)))
+				}
+			}
+			if res.V == "ok" {
+				sort.Strings(seen)
+				res.Detail = strings.Join(seen, " ")
+			}
+		}
+		hlib.Emit(res)
+	}
+	emitSummary()
+}
+
+func numbered(src string) string {
+	var sb strings.Builder
+	for i, l := range strings.Split(strings.TrimRight(src, "\n"), "\n") {
+		fmt.Fprintf(&sb, "%3d| %s\n", i+1, l)
+	}
+	return sb.String()
+}
